@@ -49,6 +49,12 @@ def define(pid, propfile, insts, drivers, text, rule, assumptions=(), diag=None,
                         m = ck.run_driver(drv, args, seed=ck.seed if rnd == 0 else ck.seed * 1000 + 7 * rnd)
                         if m is not None and m.get("n_cases", 0):
                             ck.compare(m, label=("round %d" % rnd) if rounds > 1 else None)
+            else:
+                # the tables could not be translated (their shape changed): the model cannot be evaluated, but the search for a failing
+                # input on the implementation itself still runs
+                ck.force_thorough = True
+                for drv, args in drivers:
+                    ck.run_driver(drv, args)
         return ck.finish(text, rule)
     run.__name__ = pid
     REGISTRY[pid] = run
@@ -56,10 +62,10 @@ def define(pid, propfile, insts, drivers, text, rule, assumptions=(), diag=None,
 
 RD = "hostile / well-formed item streams (valid frames of all types incl. unknown and boundary lengths, damaged, reserved-bit headers, NMEA, UBX, sync-dense noise, truncated tails) x fault schedules"
 
-define("C01", "Properties/C01.v", ["C01_inst.v"], [("reader", [])],
+define("C01", "Properties/C01.v", ["C01_inst.v"], [("reader", []), ("crc", [])],
        "Theorem: for every lawful stream (file with any fault schedule; socket wrapper with any recv events), every constructor and error mode, any number of successive reads, the yielded frames are disjoint slices of the input in order, each a well-formed frame whose parsed message is the constructor applied to exactly that slice's payload. Instantiated at the regenerated framing constants; reader model tied to RTCMReader by correspondence incl. exhaustive single faults; implementation output also checked directly against an independent frame oracle.",
        RD + " (none / single fault at every call index x 3 kinds / random)", ["streams are modelled as total read/readline functions: exceptions raised by the stream object itself are outside the theorem"])
-define("C02", "Properties/C02.v", ["C02_inst.v"], [("reader", [])],
+define("C02", "Properties/C02.v", ["C02_inst.v"], [("reader", []), ("crc", [])],
        "Theorem: for every list of well-formed items and every constructor, iteration yields exactly the frames whose payload parses, byte for byte, in order, then ends, consuming the whole stream; zero-length and 1023-byte frames handled (corollaries). NMEA/UBX header tables and constants are per-run table theorems.",
        "well-formed mixed streams of 2..40 items over BytesIO, BufferedReader and a fake socket", ["NMEA sentences with a listed talker; unlisted '$x' openers are covered by C01/C04 only"])
 define("C03", "Properties/C03.v", ["C06_inst.v"], [("msg", [])],
@@ -69,7 +75,7 @@ define("C04", "Properties/C04.v", ["C04_inst.v"], [("msg", []), ("reader", [])],
        "Theorems: the constructor never lets a foreign exception escape (all tables, payloads, options); short payloads give the message error; the static parser is total; read() never raises in ignore/log modes and raises only library errors in raise mode; the read loop consumes >= 1 byte per pass so iteration over a finite stream terminates (fuel never exhausted). Per run: tables_total_ok T = true, hence (construct_total) for the working tree's tables every payload yields a message or a library error -- the model has no Unmodelled answer left. Exhaustive header sweep (4096 numbers x lengths, 256 sub-types) and arbitrary streams by correspondence + direct search.",
        "all 4096 message numbers x lengths 2..4(8), 256 sub-types, short payloads, mutations/truncations of builder payloads; arbitrary / hostile streams in 3 modes with and without faults",
        ["Unmodelled outcomes of the model (table shapes outside the mirror) are excluded by the per-run layout well-formedness theorem and flagged by the correspondence"])
-define("C05", "Properties/C05.v", ["C02_inst.v"], [("reader", [])],
+define("C05", "Properties/C05.v", ["C02_inst.v"], [("reader", []), ("crc", [])],
        "Theorems: for every item list with CRC-detected damaged frames: ignore/log yield exactly the good frames in order, handler once per damaged frame in log mode and never in ignore mode; raise mode raises a parse error at each damaged frame between the good ones and the reader keeps working. Which damage is detected is C08.",
        "streams of 2..11 valid frames with 1-bit / 2-bit / odd / burst damage in payload or checksum bytes, 3 modes, handler object and logger")
 define("C06", "Properties/C06.v", ["C06_inst.v"], [("msg", [])],
@@ -105,7 +111,7 @@ define("C18", "Properties/C18.v", ["C18_inst.v"], [("helpers", [])],
 define("C19", "Properties/C19.v", ["C18_inst.v"], [("helpers", [])],
        "Theorems: for every key and every list of positive indices (any digits, any depth): datadesc(render key idxs) = the field's description (given the per-run unambiguity theorem on the tables), att2idx/att2name invert the rendering for keys without underscore (per-run: every grouped key), rendering is injective, int(f'{i:02d}') = i.",
        "every name generated on a corpus covering all identities + synthetic 3-digit / nested indices (about 1600 names)")
-define("C07", "Properties/C07.v", ["C15_inst.v"], [("msg", [])],
+define("C07", "Properties/C07.v", ["C15_inst.v"], [("msg", []), ("crc", [])],
        "Theorems: serialize gives 0xD3 + 16-bit length (top six bits zero) + payload + CRC-24Q, a well-formed frame, for every payload up to 1023 bytes; parse(serialize(m)) = m (equal object) with validation on or off; serialize(parse(f)) = f for every valid frame; CPython's bytes-literal printer and reader (modelled exactly) are inverse on every byte string, so eval(repr(m)) rebuilds the payload.",
        "builder payloads of all identities + unknown types at boundary sizes 2,3,255,256,1022,1023; eval(repr()) run for real on the implementation",
        ["pyrepr/pyeval are a Gallina model of CPython's bytes literal syntax, validated against Python on all 256 byte values and quote mixes"], src=True)
